@@ -62,6 +62,19 @@ def lengths(tier, min_rows=0, min_len=0, max_rows=None, max_len=None):
     ]
     if min_rows == 0:
         alts.append(st.just([]))
+
+    def near_rect(t):
+        # a rectangular shape with cells moved between rows: same first/last length or same total as a rectangle
+        n, L, moves = t
+        lens = [L] * n
+        for (i, j) in moves:
+            i, j = i % n, j % n
+            if lens[i] > 0 and i != j:
+                lens[i] -= 1
+                lens[j] += 1
+        return lens
+    alts.append(st.tuples(st.integers(max(m1, 2), max(R, 3)), st.integers(0, min(L, 4)),
+                          st.lists(st.tuples(st.integers(0, 9), st.integers(0, 9)), max_size=3)).map(near_rect))
     long_ = st.lists(st.one_of(st.integers(0, 3), st.integers(0, sz["long_len"])), min_size=m1, max_size=sz["long_rows"])
     return st.one_of(*alts, long_)
 
@@ -136,6 +149,10 @@ def elem(dt, specials=True, mag=None, wide=False):
 @_cache
 def flat_values(dt, n, specials=True, mag=None, dup=False, wide=False):
     e = elem(dt, specials, mag, wide)
+    if dt in FLOAT_DT and specials and not dup and n > 0:
+        # now and then nothing but zeros of both signs (they compare equal and behave differently under 1/x, copysign, arctan2)
+        zeros = st.lists(st.sampled_from([0.0, -0.0]), min_size=n, max_size=n)
+        return st.one_of(*([st.lists(e, min_size=n, max_size=n)] * 9), zeros)
     if dup:
         # few distinct values -> duplicates and runs
         return st.tuples(st.lists(e, min_size=3, max_size=3), st.lists(st.integers(0, 2), min_size=n, max_size=n)).map(
@@ -190,7 +207,22 @@ def rowsel(n, norepeat=False, allow_bad_int=True):
             lst = st.tuples(st.permutations(list(range(n))), st.integers(0, n), st.lists(st.booleans(), min_size=n, max_size=n)).map(
                 lambda t: [i - n if g else i for i, g in zip(t[0][:t[1]], t[2])])
         else:
-            lst = st.lists(st.integers(-n, n - 1), max_size=n + 3)
+            def perturbed(t):
+                # the identity list with one entry repeated in place of a neighbour / a swapped pair / reversed inner part
+                kind, i, j = t
+                base = list(range(n))
+                i, j = i % n, j % n
+                if kind == 0:
+                    base[j] = base[i]
+                elif kind == 1:
+                    base[i], base[j] = base[j], base[i]
+                elif kind == 2 and n > 2:
+                    base = [base[0]] + base[1:-1][::-1] + [base[-1]]
+                else:
+                    base = base[i:] + base[:i]
+                return base
+            lst = st.one_of(st.lists(st.integers(-n, n - 1), max_size=n + 3), st.lists(st.integers(-n, n - 1), max_size=n + 3),
+                            st.tuples(st.integers(0, 3), st.integers(0, 50), st.integers(0, 50)).map(perturbed))
     else:
         lst = st.just([])
     alts.append(st.tuples(lst, st.sampled_from(["list", "int64", "int64", "int32", "intp"])).map(lambda t: ["l", t[0], t[1]]))
